@@ -1064,7 +1064,10 @@ def probe_returned_jacobian(res: Result) -> None:
         j = d.linearize(x, compute_all_jacobians=True)
         j["y"]["a"][0, 0] = 99.0
         j2 = d.linearize({"a": np.array([1.0])}, compute_all_jacobians=True)
-        if F(j2["y"]["a"][0, 0]) != 4:
+        ok = F(j2["y"]["a"][0, 0]) == 4
+        j2["y"]["a"][0, 0] = 77.0  # the array handed out by a hit
+        j3 = d.linearize({"a": np.array([1.0])}, compute_all_jacobians=True)
+        if not (ok and F(j3["y"]["a"][0, 0]) == 4):
             affected.append(kind)
     res.count("probe-returned-jacobian-mutated", 4)
     res.notes.append(
